@@ -2670,6 +2670,10 @@ func (c *codegen) convertBuiltin(expr *ast.CallExpr) {
 			emit.Opcodes(c.prog.BinWriter, opcode.DROP, opcode.PUSHDATA1, 0)
 			if expr.Ellipsis.IsValid() {
 				ast.Walk(c, expr.Args[1])
+				if !isString(c.typeOf(expr.Args[1])) {
+					// A nil slice has no elements to append.
+					c.emitNilToEmptyBytes()
+				}
 			} else {
 				elems := make(map[int64]ast.Expr)
 				for i := range expr.Args[1:] {
